@@ -37,6 +37,8 @@ def gen_type(rnd, depth, comparable=False):
     if k == "map":
         return "map[%s]%s" % (gen_type(rnd, 0, comparable=True), gen_type(rnd, depth - 1))
     if k == "chan":
+        if rnd.random() < 0.2:
+            return "chan (<-chan %s)" % gen_type(rnd, depth - 1)        # needs its parentheses: chan <-chan T is chan<- (chan T)
         return rnd.choice(["chan ", "<-chan ", "chan<- "]) + gen_type(rnd, depth - 1)
     if k == "func":
         pl = [gen_type(rnd, depth - 1) for _ in range(rnd.randint(0, 2))]
@@ -436,6 +438,12 @@ ALIAS_CAPTURE = {
 }
 
 
+# an alias of context.Context as a provider's parameter, together with Async providers: one context parameter, first (repaired)
+CTX_ALIAS = {
+    "k.go": 'package main\n\nimport (\n\t"context"\n\n\t"github.com/mazrean/kessoku"\n)\n\ntype Ctx = context.Context\n\ntype DB struct{}\ntype Cache struct{}\ntype App struct {\n\tdb *DB\n\tc  *Cache\n}\n\nfunc NewDB(ctx Ctx) (*DB, error)   { return &DB{}, nil }\nfunc NewCache() *Cache             { return &Cache{} }\nfunc NewApp(db *DB, c *Cache) *App { return &App{db, c} }\n\nvar _ = kessoku.Inject[*App]("InitApp",\n\tkessoku.Async(kessoku.Provide(NewDB)),\n\tkessoku.Async(kessoku.Provide(NewCache)),\n\tkessoku.Provide(NewApp),\n)\n\nfunc main() {\n\tif a, err := InitApp(context.Background()); err != nil || a == nil {\n\t\tpanic("wrong result")\n\t}\n}\n',
+}
+
+
 def write_pkg(mod, name, files):
     d = os.path.join(mod, name)
     os.makedirs(d, exist_ok=True)
@@ -509,6 +517,7 @@ def _stage(seed, tier, key="N-x"):
     import stage_det
     pkgs.append(("suffix_sibling", dict(stage_det.SUFFIXNAME, **{"main.go": "package main\n\nfunc main() {}\n"}), ["k.go"], None,
                  dict(kind="a sibling source whose name ends in the target's name", expect_funcs={"k_band.go": ["InitApp"]})))
+    pkgs.append(("ctx_alias", CTX_ALIAS, ["k.go"], None, dict(kind="an alias of context.Context among the requirements", run=True, expect_params={"k_band.go": {"InitApp": ["Ctx"]}})))
     pkgs.append(("xset", XSET, ["k.go"], "KF-C10-1", dict(kind="known finding reproducer (Set of another package)", signature="no vet signature: the file compiles",
                                                        expect_params={"k_band.go": {"InitB": []}}, known_params={"k_band.go": {"InitB": ["*prov.A"]}})))
     for kid, (body, sig) in KNOWN.items():
